@@ -40,6 +40,16 @@ def check_config(cfg, w, rep):
     c03.check_config(cfg, w, sub)
     _import(cfg, rep, sub, FROM_C03, "b")
 
+    # (a') ... and the append handle is used as it was opened: no call on it (or anywhere in the insert) that the dependency model
+    # does not know — a buffer-size or mode setting on the runtime's file can split one write into several appends
+    for p_ in w.roles.index_inserts:
+        lf_ = prog.fns[p_]
+        for e in w.own_effects(lf_):
+            if e.kind == "Unmodelled":
+                rep.violation("a-unmodelled:%s" % fn_key(lf_),
+                              "index insert `%s` uses %s, which is not in the dependency model: whether the record still reaches the O_APPEND "
+                              "descriptor in one write is not known" % (short(lf_.path), e.flags.get("by_name") or e.term.callee.path),
+                              loc=e.loc(), config=cfg, rule="a/b-one-write-call")
     # (c) every directory creation tolerates concurrent creation
     n = 0
     for e in w.inv.effects:
